@@ -76,6 +76,8 @@ class Cursor:
         self.log = []  # (node, clock)
         self.must_yield = {}  # id(node) -> (node, stamp)
         self.must_skip = {}  # id(node) -> (node, stamp)
+        self.must_yield_tail = {}  # id(node) -> (node, stamp, "chain"|"live-follower"): far-end insertions while the current node is gone
+        self.followers_at_removal = []
         self.expect_next = None  # (node s, stamp of s at that time)
         self.h_touched = False
 
@@ -172,6 +174,7 @@ class World:
                     i = pos[0]
                     s = seq[i + 1] if i + 1 < len(seq) else None
                     c.expect_next = (s, self.stamp(s)) if s is not None else None
+                    c.followers_at_removal = [(f, self.stamp(f)) for f in seq[i + 1:]]
                     if c.kind == 2 and c.expect_next is not None:
                         # a recursive cursor is a stack of per-graph positions: the flat follower is only
                         # the resume point when it lives on the same level (or the removed node is the
@@ -213,6 +216,24 @@ class World:
         """nodes were just inserted (model lists already updated)."""
         L = self.L0 if graph_is_main else self.LS
         for c in self.cursors:
+            if c.started and not c.exhausted and not c.cur_live and c.cur is not None and c.kind in (0, 1) and graph_is_main:
+                # The current node was removed/moved: the cursor stands at its ORIGINAL place, i.e. somewhere before the
+                # far end of the sequence in its direction.  A node that arrives at that far end is therefore "inserted
+                # after the current position" whatever happened in between (the only claim made for such a cursor).
+                seq = self.seq_for(c, L, graph_is_main)
+                if seq:
+                    for n in nodes:
+                        if seq[-1] is n and n is not c.cur:
+                            # "chain": every node that followed the removed current node has been removed or moved since
+                            # (its old link is a tombstone too) - the tombstone chain then leads straight to the end
+                            gone = all(self.stamp(f) != st0 or f is n for f, st0 in c.followers_at_removal)
+                            if gone:
+                                # nothing untouched is left between the cursor's place and the far end: the node arrived AT
+                                # the cursor's place, where "before" and "after" are not defined - no claim
+                                self.ambiguous_tail = getattr(self, "ambiguous_tail", 0) + 1
+                            else:
+                                c.must_yield_tail[id(n)] = (n, self.stamp(n), "live-follower")
+                continue
             if not c.started or c.exhausted or not c.cur_live or c.cur is None:
                 continue
             seq = self.seq_for(c, L, graph_is_main)
@@ -525,6 +546,10 @@ def _execute(case):
     if len(w.cursors) >= 2:
         classes.append(">=2 cursors")
     fails = [(b, m + f" | script init={case['init']} ops={case['ops']}"[:300]) for b, m in w.fails[:2]]
+    if getattr(w, "ambiguous_tail", 0):
+        classes.append("arrival_at_the_place_of_a_removed_current_node(no claim)")
+    if any(c.must_yield_tail for c in w.cursors):
+        classes.append("arrival_behind_a_removed_current_node")
     return dict(failures=fails, nontrivial=w.interesting and bool(w.cursors), classes=sorted(set(classes)))
 
 
@@ -547,6 +572,12 @@ def _final_clauses(w, c):
         cnt = sum(1 for m, clk in c.log if m is n and clk > st)
         if cnt != 1:
             w.fail(f"d-inserted-after/{KIND[c.kind]}", f"cursor#{c.idx}: {n.name} was inserted after the live current node but was yielded {cnt} times afterwards")
+    for n, st, how in c.must_yield_tail.values():
+        if w.stamp(n) != st:
+            continue
+        cnt = sum(1 for m, clk in c.log if m is n and clk > st)
+        if cnt != 1:
+            w.fail(f"d-appended-after-removed-current/{how}/{KIND[c.kind]}", f"cursor#{c.idx}: its current node had been removed; {n.name} then arrived at the far end of the sequence (after the cursor's place) but was yielded {cnt} times afterwards")
     for n, st in c.must_skip.values():
         if w.stamp(n) != st or (c.kind == 2 and c.h_touched and in_s(n)):
             continue
